@@ -200,7 +200,8 @@ fn tag_value() -> BoxedStrategy<RVal> {
 
 fn dis_case() -> BoxedStrategy<DisCase> {
     let display_tags = prop::collection::btree_map(prop::sample::select(DISPLAY_TAGS.to_vec()).prop_map(String::from), prop_oneof![3 => tag_value(), 2 => pattern().prop_map(RVal::Str)], 0..4);
-    let others = prop::collection::btree_map(tag2(), tag_value(), 0..5);
+    // the text of an ordinary tag may itself look like a pattern (`$<key>`, `$foo`): substituted text is not scanned again
+    let others = prop::collection::btree_map(tag2(), prop_oneof![4 => tag_value(), 1 => pattern().prop_map(RVal::Str), 1 => (gv::ref_id(), pattern()).prop_map(|(i, p)| RVal::Ref(i, Some(p)))], 0..5);
     let loc = prop::collection::btree_map(prop::sample::select(vec!["key", "pod::key", "a b", "k2", "foo", "notUsed"]).prop_map(String::from), gv::ustring(6), 0..4);
     bx((display_tags, others, loc, prop::option::of(gv::ustring(5)), pattern(), any::<u8>()).prop_map(|(mut d, o, localized, default, pattern, pick)| {
         for (k, v) in o {
@@ -261,6 +262,21 @@ fn check_case(c: &DisCase, rec: &mut Rec) -> Verdict {
         }
         if !c.pattern.contains('$') && got != c.pattern {
             return Verdict::fail("C20:dis_macro:no-dollar-changed", format!("{:?} -> {:?}", c.pattern, got));
+        }
+        // 1b. callbacks that compute display names themselves (resolving `$equipRef` through the referenced record's
+        // dis(), a localiser built on a template): the same answer, and no panic, when substitution is re-entered
+        let get_value_re = |name: &str| -> Option<Cow<'_, Value>> {
+            std::hint::black_box(d.dis().len());
+            std::hint::black_box(dis_macro("$foo ${bar} $<key>", |n: &str| d.get(n).map(Cow::Borrowed), |_k: &str| None::<Cow<'_, str>>).len());
+            d.get(name).map(Cow::Borrowed)
+        };
+        let get_loc_re = |key: &str| -> Option<Cow<'_, str>> {
+            std::hint::black_box(dis_macro("$dis $<k2>", |n: &str| d.get(n).map(Cow::Borrowed), |_k: &str| None::<Cow<'_, str>>).len());
+            loc.get(key).map(|s| Cow::Borrowed(s.as_str()))
+        };
+        let got_re = dis_macro(&c.pattern, get_value_re, get_loc_re).to_string();
+        if got_re != want {
+            return Verdict::fail("C20:dis_macro:differs-with-re-entrant-callbacks", format!("dis_macro({:?}) with callbacks that call dis()/dis_macro gives {:?}, expected {:?}", c.pattern, got_re, want));
         }
         // 2. the record's display string
         let get_loc2 = |key: &str| -> Option<Cow<'_, str>> { loc.get(key).map(|s| Cow::Borrowed(s.as_str())) };
